@@ -1,5 +1,7 @@
 package main
 
+import "strings"
+
 func init() {
 	const (
 		rm    = "internal/packages/internal/packageimport/request_manager.go"
@@ -31,6 +33,17 @@ func init() {
 		"\t\tif res.RawPackage != nil {\n" +
 		"\t\t\t// DeepCopy to ensure clients can work concurrently on the returned files map.\n" +
 		"\t\t\trawPkg = res.RawPackage.DeepCopy()\n\t\t}\n"
+	const reqTemp = "\tr.inFlightLock.Lock()\n\tdefer r.inFlightLock.Unlock()\n\n" +
+		"\treceivers, inFlight := r.inFlight[image]\n\tif !inFlight {\n" + goStmt + "\t}\n\n" +
+		"\trecv := make(chan response, 1)\n\n\tr.inFlight[image] = append(receivers, recv)\n\n\treturn recv\n"
+	const respFieldwise = "\tr.inFlightLock.Lock()\n\tdefer r.inFlightLock.Unlock()\n\n" +
+		"\treceivers := r.inFlight[image]\n\tfor i := range receivers {\n\t\tvar out response\n\t\tout.Err = res.Err\n" +
+		"\t\tif res.RawPackage != nil {\n\t\t\tout.RawPackage = res.RawPackage.DeepCopy()\n\t\t}\n\t\treceivers[i] <- out\n\t}\n\n\tdelete(r.inFlight, image)\n"
+	const respViaHelper = "\tr.inFlightLock.Lock()\n\tdefer r.inFlightLock.Unlock()\n\n" +
+		"\tfor _, recv := range r.inFlight[image] {\n\t\trecv <- res.c20tForReceiver()\n\t}\n\n\tdelete(r.inFlight, image)\n"
+	const respDoc = "// handleResponse broadcasts a response to all receivers listening\n"
+	const respHelper = "func (res response) c20tForReceiver() response {\n\tif res.RawPackage == nil {\n\t\treturn response{Err: res.Err}\n\t}\n\n" +
+		"\treturn response{\n\t\tRawPackage: res.RawPackage.DeepCopy(),\n\t\tErr:        res.Err,\n\t}\n}\n\n"
 	addMutants(
 		// ---- R1 ------------------------------------------------------------------------------
 		Mutant{Prop: "C20", Name: "r1-broadcast-without-lock", File: rm,
@@ -156,7 +169,55 @@ func init() {
 			New:    "\tr.inFlightLock.Unlock()\n\tr.inFlightLock.Lock()\n\n\tdelete(r.inFlight, image)\n",
 			Expect: []string{"C20.R6@(*internal/packages/internal/packageimport.RequestManager).handleResponse#delete-after-broadcast"}},
 
+		// ---- refactored shapes (entry read once into a temporary; response built field by field;
+		//      per-receiver copy in a helper with an early return) and ways of breaking them --------
+		Mutant{Prop: "C20", Name: "r3-temp-receivers-stale-after-unlock", File: rm,
+			Old: reqBody, New: strings.Replace(reqTemp, "\trecv := make(chan response, 1)\n", "\tr.inFlightLock.Unlock()\n\tr.inFlightLock.Lock()\n\trecv := make(chan response, 1)\n", 1),
+			Expect: []string{"C20.R3@(*internal/packages/internal/packageimport.RequestManager).handleRequest#returns-registered-channel"}},
+		Mutant{Prop: "C20", Name: "r3-temp-receivers-returns-unregistered-channel", File: rm,
+			Old: reqBody, New: strings.Replace(reqTemp, "\treturn recv\n", "\treturn make(chan response, 1)\n", 1),
+			Expect: []string{"C20.R3@(*internal/packages/internal/packageimport.RequestManager).handleRequest#returns-registered-channel"}},
+		Mutant{Prop: "C20", Name: "r4-temp-receivers-unbuffered", File: rm,
+			Old: reqBody, New: strings.Replace(reqTemp, "make(chan response, 1)", "make(chan response)", 1),
+			Expect: []string{"C20.R4@(*internal/packages/internal/packageimport.RequestManager).handleRequest#receiver-buffered"}},
+		Mutant{Prop: "C20", Name: "r5-fieldwise-shared-package", File: rm,
+			Old: respBody, New: strings.Replace(respFieldwise, "out.RawPackage = res.RawPackage.DeepCopy()", "out.RawPackage = res.RawPackage", 1),
+			Expect: []string{"C20.R5@(*internal/packages/internal/packageimport.RequestManager).handleResponse#private-copy"}},
+		Mutant{Prop: "C20", Name: "r5-fieldwise-nil-for-non-nil-package", File: rm,
+			Old: respBody, New: strings.Replace(respFieldwise, "if res.RawPackage != nil {", "if res.RawPackage != nil && res.Err == nil {", 1),
+			Expect: []string{"C20.R5@(*internal/packages/internal/packageimport.RequestManager).handleResponse#private-copy"}},
+		Mutant{Prop: "C20", Name: "r5-fieldwise-copy-kept-for-next-receiver", File: rm,
+			Old: respBody, New: strings.Replace(strings.Replace(respFieldwise, "\tfor i := range receivers {\n\t\tvar out response\n", "\tvar out response\n\tfor i := range receivers {\n", 1),
+				"if res.RawPackage != nil {", "if i == 0 && res.RawPackage != nil {", 1),
+			Expect: []string{"C20.R5@(*internal/packages/internal/packageimport.RequestManager).handleResponse#private-copy"}},
+		Mutant{Prop: "C20", Name: "r5-fieldwise-error-dropped", File: rm,
+			Old: respBody, New: strings.Replace(respFieldwise, "\t\tout.Err = res.Err\n", "", 1),
+			Expect: []string{"C20.R5@(*internal/packages/internal/packageimport.RequestManager).handleResponse#private-copy"}},
+		Mutant{Prop: "C20", Name: "r5-helper-shares-package", File: rm,
+			Old: respBody, New: respViaHelper,
+			More:   []Edit{{File: rm, Old: respDoc, New: strings.Replace(respHelper, "RawPackage: res.RawPackage.DeepCopy(),", "RawPackage: res.RawPackage,", 1) + respDoc}},
+			Expect: []string{"C20.R5@(*internal/packages/internal/packageimport.RequestManager).handleResponse#private-copy"}},
+		Mutant{Prop: "C20", Name: "r5-helper-early-return-for-non-nil-package", File: rm,
+			Old: respBody, New: respViaHelper,
+			More:   []Edit{{File: rm, Old: respDoc, New: strings.Replace(respHelper, "if res.RawPackage == nil {", "if res.RawPackage == nil || res.Err != nil {", 1) + respDoc}},
+			Expect: []string{"C20.R5@(*internal/packages/internal/packageimport.RequestManager).handleResponse#private-copy"}},
+		Mutant{Prop: "C20", Name: "r5-helper-called-once-before-loop", File: rm,
+			Old: respBody, New: strings.Replace(respViaHelper, "\tfor _, recv := range r.inFlight[image] {\n\t\trecv <- res.c20tForReceiver()\n", "\tone := res.c20tForReceiver()\n\tfor _, recv := range r.inFlight[image] {\n\t\trecv <- one\n", 1),
+			More:   []Edit{{File: rm, Old: respDoc, New: respHelper + respDoc}},
+			Expect: []string{"C20.R5@(*internal/packages/internal/packageimport.RequestManager).handleResponse#private-copy"}},
+		Mutant{Prop: "C20", Name: "r5-response-passed-on-as-is", File: rm,
+			Old: respBody, New: "\tr.inFlightLock.Lock()\n\tdefer r.inFlightLock.Unlock()\n\n\tfor _, recv := range r.inFlight[image] {\n\t\trecv <- res\n\t}\n\n\tdelete(r.inFlight, image)\n",
+			Expect: []string{"C20.R5@(*internal/packages/internal/packageimport.RequestManager).handleResponse#private-copy"}},
+
 		// ---- benign variants ------------------------------------------------------------------
+		Mutant{Prop: "C20", Name: "benign-receivers-read-once-into-temporary", File: rm, Benign: true,
+			Old: reqBody, New: reqTemp},
+		Mutant{Prop: "C20", Name: "benign-response-built-field-by-field", File: rm, Benign: true,
+			Old: respBody, New: respFieldwise},
+		Mutant{Prop: "C20", Name: "benign-response-variable-outlives-iteration", File: rm, Benign: true,
+			Old: respBody, New: strings.Replace(respFieldwise, "\tfor i := range receivers {\n\t\tvar out response\n", "\tvar out response\n\tfor i := range receivers {\n", 1)},
+		Mutant{Prop: "C20", Name: "benign-per-receiver-copy-in-helper", File: rm, Benign: true,
+			Old: respBody, New: respViaHelper, More: []Edit{{File: rm, Old: respDoc, New: respHelper + respDoc}}},
 		Mutant{Prop: "C20", Name: "benign-named-inflight-flag", File: rm, Benign: true,
 			Old: "\tif _, inFlight := r.inFlight[image]; !inFlight {\n\t\tgo func",
 			New: "\t_, pulling := r.inFlight[image]\n\tif pulling == false {\n\t\tgo func"},
